@@ -376,7 +376,7 @@ def check_enum(cx, fn, rep, facts):
             continue
         bt = list(binders)[0]
         si = binder_of_selection_into(S, bt)
-        is_tuple_term = ('proj', 1, si[1])
+        is_tuple_term = si[3]
         if si[2] == 'flag':
             tup = [x[2] for x in atoms if x[0] == 'truth' and x[1] == is_tuple_term]
         else:
@@ -433,6 +433,20 @@ def check_enum(cx, fn, rep, facts):
 
 def binder_of_selection_into(S, bt):
     """like c09.binder_of_selection but the selection is a triple"""
+    if isinstance(bt, tuple) and match_arms(bt) is not None:
+        # form 'plain': the binder is computed where it is used, `match field.ident { Some(i) => format_ident!(<fmt>, i), None => _<index> }`;
+        # the tuple/named distinction is the Option itself
+        scrut, m_arms = match_arms(bt)
+        if isinstance(scrut, tuple) and scrut[0] == 'field' and scrut[2] == 'ident' and isinstance(scrut[1], tuple) and scrut[1][0] == 'proj' and scrut[1][1] == 1:
+            sel = scrut[1][2]
+            arms = dict((p, v) for p, v in m_arms)
+            some = [v for p, v in arms.items() if p.startswith('Some(')]
+            none = [v for p, v in arms.items() if p == 'None']
+            if parse_sel3(S, sel) is not None and len(some) == 1 and len(none) == 1 and none[0] == ('format_ident', '_{}', ('proj', 0, sel)) \
+                    and isinstance(some[0], tuple) and some[0][0] == 'format_ident' and len(some[0]) == 3 and isinstance(some[0][1], str) \
+                    and some[0][1].count('{}') == 1 and some[0][2] == ('some_of', scrut):
+                return sel, bt, 'plain', scrut
+        return None
     if not (isinstance(bt, tuple) and bt[0] == 'proj' and bt[1] == 0 and match_arms(bt[2]) is not None):
         return None
     m = bt[2]
@@ -454,11 +468,11 @@ def binder_of_selection_into(S, bt):
         return None
     # form 'flag': (the field's own name | _<index>, is_tuple)
     if a[1] == ('some_of', scrut) and a[2] == ('lit', 'Bool', False) and b[2] == ('lit', 'Bool', True):
-        return sel, m, 'flag'
+        return sel, m, 'flag', ('proj', 1, m)
     # form 'real': (a name derived from the field's name | _<index>, Some(the field's own name) | None)
     if isinstance(a[1], tuple) and a[1][0] == 'format_ident' and len(a[1]) == 3 and isinstance(a[1][1], str) and a[1][1].count('{}') == 1 \
             and a[1][2] == ('some_of', scrut) and a[2] == ('Some', ('some_of', scrut)) and (b[2] == scrut or b[2] in (('path', 'None'), ('None',))):
-        return sel, m, 'real'
+        return sel, m, 'real', ('proj', 1, m)
     return None
 
 
@@ -479,7 +493,14 @@ def check_keys_normalised(cx, rep):
                     continue
                 kt = tm.term(ev.args[0], ev.scope)
                 n += 1
-                if isinstance(kt, tuple) and kt[0] == 'call' and kt[1] == TO_HASH:
+                from ..terms import subterms as _sub
+                inner_calls = [x_[1] for x_ in _sub(kt[2]) if isinstance(x_, tuple) and x_ and x_[0] == 'call' and str(x_[1]).startswith('crate::')] \
+                    if isinstance(kt, tuple) and len(kt) > 2 else []
+                if isinstance(kt, tuple) and kt[0] == 'call' and kt[1] == TO_HASH and inner_calls:
+                    rep.bad('SUM-INTO', f.qname, 'target-key', 'a target type is rewritten (`%s`) before it is keyed: the other builder and the handlers key the declared field types as written, so a target '
+                            'that the rewriting changes (a `$t:ty` fragment, a parenthesised type) no longer matches its own fields and markers' % str(inner_calls[0]).split('::')[-1],
+                            f.file, ev.line)
+                elif isinstance(kt, tuple) and kt[0] == 'call' and kt[1] == TO_HASH:
                     rep.ok('SUM-INTO', '%s|key of types.insert is to_hash_type(..)' % f.qname)
                 else:
                     rep.bad('SUM-INTO', f.qname, 'target-key', 'a target type is stored under a key that is not `to_hash_type(<type>)` (%s): keys of the type-level and field-level builders no longer agree for reference types' % term_s(kt, 80),
@@ -508,6 +529,7 @@ def check_hash_type(cx, rep):
     leaves = result_leaves(cx, f)
     ok = bool(leaves) and bool(pn0)
     seen_cases = set()
+    struct_update = False
     for v, ctx, how, ev in leaves:
         if not (v['k'] == 'Call' and es(v['func']).endswith('HashType::from') and len(v['args']) == 1):
             ok = False
@@ -520,18 +542,36 @@ def check_hash_type(cx, rep):
                 conds.append((pat_s(c_['pat']).split('(')[0], es(c_['expr']).replace(' ', '').lstrip('&'), c_['pol']))
             elif c_['k'] == 'if':
                 conds.append(('if', es(c_['cond']).replace(' ', ''), c_['pol']))
+        for c_ in ctx:
+            # `match ty { Type::Reference(r) if r.lifetime.is_none() => .., _ => .. }`
+            if c_['k'] == 'arm' and es(c_['scrut']).replace(' ', '').lstrip('&') == pn0[0]:
+                conds.append((pat_s(c_['pat']).split('(')[0], pn0[0], True))
+                if c_.get('guard') is not None:
+                    conds.append(('if', es(c_['guard']).replace(' ', ''), True))
         is_ref = any(c_[0] in ('Type::Reference', 'syn::Type::Reference') and c_[1] == pn0[0] and c_[2] for c_ in conds)
         no_lt = any(c_[0] == 'if' and c_[1].endswith('.lifetime.is_none()') and c_[2] for c_ in conds)
         if is_ref and no_lt:
             if not xs.startswith('Type::Reference('):
                 ok = False
+            elif x['k'] == 'Call' and len(x['args']) == 1 and x['args'][0]['k'] == 'Struct':
+                # `TypeReference { lifetime: Some(<'static>), ..reference.clone() }`: everything but the lifetime is the written reference
+                lit_ = x['args'][0]
+                fl_ = dict((f_['member'], f_['expr']) for f_ in lit_['fields'])
+                lt_ = tm.term(fl_['lifetime'], ev.scope) if set(fl_) == {'lifetime'} else None
+                from ..terms import term_s as _ts
+                if lit_['path']['s'].split('::')[-1] != 'TypeReference' or lt_ is None or 'Lifetime::new' not in _ts(lt_, 400) or "'static" not in _ts(lt_, 400) \
+                        or not (isinstance(lt_, tuple) and lt_[0] == 'Some') or lit_.get('rest') is None or not es(lit_['rest']).replace(' ', '').endswith('.clone()'):
+                    ok = False
+                struct_update = True
             seen_cases.add('static')
         else:
             if xs not in (pn0[0], pn0[0] + '.clone()'):
                 ok = False
             seen_cases.add('as-written')
     assigns = [ev for ev in fw.events if ev.kind == 'assign']
-    if len(assigns) != 1 or not es(assigns[0].target).replace(' ', '').endswith('.lifetime') \
+    if struct_update and not assigns:
+        pass
+    elif len(assigns) != 1 or not es(assigns[0].target).replace(' ', '').endswith('.lifetime') \
             or not es(assigns[0].value).replace(' ', '').startswith('Some(Lifetime::new("\'static"'):
         ok = False
     if any(ev.kind == 'call' and ev.path and ev.path.split('::')[-1] in ('dereference', 'dereference_changed') for ev in fw.events):
